@@ -95,6 +95,7 @@ type caseM struct {
 	Sched       schedM          `json:"sched"`
 	MapSalt     uint64          `json:"map_salt"`
 	ExpandCheck bool            `json:"expand_check"`
+	Pretouch    bool            `json:"pretouch"`
 	// replay-file extras (ignored by the worker)
 	Expect   *expectM `json:"expect,omitempty"`
 	Tree     string   `json:"tree,omitempty"`
